@@ -293,7 +293,7 @@ int a_buf_store(void *ctx_, a_size idx, void *ptr, a_size num, int (*copy)(void 
 int a_buf_erase(void *ctx_, a_size idx, a_size num, void (*dtor)(void *))
 {
     int rc = A_SUCCESS;
-    a_size const n = idx + num;
+    a_size const n = idx + num < idx ? ~(a_size)0 : idx + num;
     a_buf *const ctx = (a_buf *)ctx_;
     a_byte *const buf = (a_byte *)(ctx + 1);
     if (dtor)
